@@ -121,6 +121,9 @@ func c02Unexplained(snap *Snapshot, all []Entry, s Settings) string {
 	}
 	have := map[c02Key]int{}
 	for _, r := range snap.Records {
+		if r.Type == "request" && r.TargetURI != "http://"+r.HTTPHost+r.HTTPTarget {
+			return fmt.Sprintf("request record with WARC-Target-URI %s holds the request %s %s for host %s", r.TargetURI, r.HTTPMethod, r.HTTPTarget, r.HTTPHost)
+		}
 		if r.Type != "response" && r.Type != "revisit" {
 			continue
 		}
@@ -143,22 +146,32 @@ func c02Unexplained(snap *Snapshot, all []Entry, s Settings) string {
 	return ""
 }
 
-// c02Missing applies rule B to one seed: returns the entries (complete + accepted) lacking records in snap.
+// c02Missing applies rule B to one seed: returns the entries (complete + accepted) lacking records in snap. A response
+// counts once its record AND the request record it names in WARC-Concurrent-To are there (both carry the target URI).
 func c02Missing(snap *Snapshot, entries []Entry, s Settings) (missing []Entry, why []string) {
-	resp := map[c02Key]int{}
+	reqByID := map[string]*verifref.WARCRecord{}
 	reqs := map[string]int{}
-	byID := map[string]*verifref.WARCRecord{}
-	var revisits []*verifref.WARCRecord
 	for _, r := range snap.Records {
-		switch r.Type {
-		case "response":
-			resp[c02Key{r.TargetURI, r.HTTPStatus, r.PayloadSHA}]++
-			byID[r.RecordID] = r
-		case "revisit":
-			resp[c02Key{r.TargetURI, r.HTTPStatus, r.PayloadSHA}]++
-			revisits = append(revisits, r)
-		case "request":
+		if r.Type == "request" {
+			reqByID[r.RecordID] = r
 			reqs[r.TargetURI]++
+		}
+	}
+	full, half, unlinked := map[c02Key]int{}, map[c02Key]int{}, map[string]int{}
+	for _, r := range snap.Records {
+		if r.Type != "response" && r.Type != "revisit" {
+			continue
+		}
+		k := c02Key{r.TargetURI, r.HTTPStatus, r.PayloadSHA}
+		ct := r.Header["warc-concurrent-to"]
+		switch q := reqByID[ct]; {
+		case ct == "":
+			unlinked[r.TargetURI]++ // no link: fall back to counting request records per URL
+			full[k]++
+		case q != nil && q.TargetURI == r.TargetURI:
+			full[k]++
+		default:
+			half[k]++
 		}
 	}
 	need := map[c02Key]int{}
@@ -170,12 +183,14 @@ func c02Missing(snap *Snapshot, entries []Entry, s Settings) (missing []Entry, w
 		k := c02Key{e.URL, e.Status, e.EntitySHA}
 		need[k]++
 		needReq[e.URL]++
-		if resp[k] < need[k] {
+		switch {
+		case full[k] >= need[k] && (unlinked[e.URL] == 0 || reqs[e.URL] >= needReq[e.URL]):
+		case full[k]+half[k] >= need[k]:
 			missing = append(missing, e)
-			why = append(why, fmt.Sprintf("no response (or revisit) record with WARC-Target-URI %s, status %d and payload sha1 %s (%d bytes) - the WARC files hold %d such record(s), the origin completely sent that response %d time(s)", e.URL, e.Status, e.EntitySHA, e.EntityLen, resp[k], need[k]))
-		} else if reqs[e.URL] < needReq[e.URL] {
+			why = append(why, fmt.Sprintf("the response record for %s (status %d, payload sha1 %s) is there, but the request record it names in WARC-Concurrent-To is not (%d request record(s) carry that target URI)", e.URL, e.Status, e.EntitySHA, reqs[e.URL]))
+		default:
 			missing = append(missing, e)
-			why = append(why, fmt.Sprintf("only %d request record(s) with WARC-Target-URI %s for %d accepted responses", reqs[e.URL], e.URL, needReq[e.URL]))
+			why = append(why, fmt.Sprintf("no response (or revisit) record with WARC-Target-URI %s, status %d and payload sha1 %s (%d bytes) - the WARC files hold %d such record(s), the origin completely sent that response %d time(s)", e.URL, e.Status, e.EntitySHA, e.EntityLen, full[k]+half[k], need[k]))
 		}
 	}
 	return
